@@ -7,12 +7,13 @@ def groups(tier):
     b = {'vector/string lengths': '0..3 elements, symbolic contents', 'damaged buffer': '24 arbitrary bytes, any declared length 0..24 (truncation at every offset)',
          'element types': 'char, int, size_t, long long, double, rvector, std::string, vector1d<real>, colvarvalue (scalar, 3-vector, unit vector, quaternion, vector)'}
     b['state file replacement'] = 'the state file (the restart name and another name) written three times through write_restart_file(); every crash point of the recorded file-operation trace (before each operation and inside each write)'
-    b['truncated text state'] = 'text state of 2 variables + a moving harmonic bias (358 bytes) cut at every offset'
+    b['truncated text state'] = 'text state of 2 variables + a moving harmonic bias (358 bytes) cut at every offset; text state of 3 variables (one with an extended coordinate and velocity) + ABF (count and gradient grids) + metadynamics (energy and gradient grids, kept hills) + histogram grid + moving harmonic bias, cut at every offset'
     return [CL.Group('C11_memstream.cpp', RT + DMG, bounds=b),
-            CL.Group('C11_files.cpp', ['h_c11f_crash', 'h_c11f_truncated'], setup=['h_c11f_setup'], bounds=b, max_paths=1000, path_time=120, total_time=900, diff=False)]
+            CL.Group('C11_files.cpp', ['h_c11f_crash', 'h_c11f_truncated'], setup=['h_c11f_setup'], bounds=b, max_paths=1000, path_time=120, total_time=900, diff=False),
+            CL.Group('C11_objects.cpp', ['h_c11o_whole', 'h_c11o_truncated'], setup=['h_c11o_setup'], bounds=b, max_paths=6000, path_time=120, total_time=1500, diff=False)]
 MANIFEST = {
- 'level_text': 'Bounded symbolic model checking of the real cvm::memory_stream code (write_object/write_vector/read_object/read_vector, string, vector1d and colvarvalue specialisations): round trip of every value type with symbolic contents and 0-3 elements (value read == value written, length() == bytes needed, following object still found); state-file replacement leaves a complete state at every crash point; a text state cut inside an object block is an error; reads from 24 arbitrary bytes with every declared length: no out-of-bounds access, no uncaught exception, no allocation from an unchecked length, read position never passes the end, success implies the data fit. Bit-precise (bit-vector) reading of integers and bytes.',
- 'level_note': '(a) state-file replacement: the real write_restart_file / output_stream / backup_file / rename_file run on the in-memory file-system model of the interpreter; the crash points are enumerated over the recorded operation trace (no solver role there: the trace is concrete), and after every call the new file must be complete, hold exactly the current state and the previous one must be kept as .old; rename is atomic, a write may be cut anywhere. (d) the text state is cut at every offset (enumerated): inside an object block the load must report an error; the module-level configuration block at the head of the file is only required not to crash. Allocation failure outside the claim; buffers longer than 24 bytes and vectors longer than 3 outside the bound.',
+ 'level_text': 'Bounded symbolic model checking of the real cvm::memory_stream code (write_object/write_vector/read_object/read_vector, string, vector1d and colvarvalue specialisations): round trip of every value type with symbolic contents and 0-3 elements (value read == value written, length() == bytes needed, following object still found); state-file replacement leaves a complete state at every crash point; a text state cut inside an object block is an error (two states: variables + moving restraint; and variables + extended coordinate + ABF + metadynamics with grids and kept hills + histogram + moving restraint), the uncut state loaded into the module that wrote it is accepted and saved again unchanged; reads from 24 arbitrary bytes with every declared length: no out-of-bounds access, no uncaught exception, no allocation from an unchecked length, read position never passes the end, success implies the data fit. Bit-precise (bit-vector) reading of integers and bytes.',
+ 'level_note': '(a) state-file replacement: the real write_restart_file / output_stream / backup_file / rename_file run on the in-memory file-system model of the interpreter; the crash points are enumerated over the recorded operation trace (no solver role there: the trace is concrete), and after every call the new file must be complete, hold exactly the current state and the previous one must be kept as .old; rename is atomic, a write may be cut anywhere. (d) the text states (358 and 1265 bytes) are cut at every offset (enumerated): inside an object block the load must report an error; the module-level configuration block at the head of the file is only required not to crash. Allocation failure outside the claim; buffers longer than 24 bytes and vectors longer than 3 outside the bound.',
  'technique': 'symbolic execution of LLVM IR with bit-vector bytes + SMT (z3); memory-safety monitors; native replay under ASan/UBSan',
  'design_ref': 'DESIGN.md 5/C11'}
 ASSUME = ['operator new never fails', 'unit vectors / quaternions written have unit norm (they are normalised when read)']
